@@ -3,6 +3,7 @@ package main
 import (
 	"fmt"
 	"go/token"
+	"go/types"
 	"strings"
 
 	"golang.org/x/tools/go/ssa"
@@ -129,7 +130,7 @@ func checkC15(c *Ctx, r *Report) {
 		// the delivery loop: the innermost loop that loads an element of the sinks list
 		var elemBlock *ssa.BasicBlock
 		isSinksList := func(v ssa.Value) bool {
-			return derivesFrom(v, isLoadOfField(k.sinksField))
+			return derivesFrom(v, isLoadOfField(k.sinksField), "slices.Clone")
 		}
 		allInstrs(f, func(in ssa.Instruction) {
 			if ld, ok := in.(*ssa.UnOp); ok && ld.Op == token.MUL {
@@ -161,6 +162,49 @@ func checkC15(c *Ctx, r *Report) {
 		isEvt := func(v ssa.Value) bool { return isParamVar(c, v, "evt") }
 		res := countIn(f, h, body, isSink, isEvt, 3)
 		r1.Check(res.only(1), k.fn+": every iteration over the sinks sends evt to that sink exactly once", f.Pos(), res.paths, res.String(), "an event is dropped for (or delivered twice to) a subscriber", res.String())
+	}
+	// delivery happens inside the node's critical section: Close (typed: sub.Close, wildcard: removeSink) takes the
+	// lock to know that no emit is still on its way to the sink it removes
+	for _, k := range []struct{ fn, lock string }{{nodeM("emit"), ".lk"}, {wM("emit"), "RWMutex"}} {
+		f := r1.need(k.fn)
+		if f == nil {
+			continue
+		}
+		isSinkSend := func(in ssa.Instruction) bool {
+			isSinkCh := func(v ssa.Value) bool {
+				fl, _ := loadOfField(strip2(v))
+				return fl != nil && fl.Name() == "ch"
+			}
+			switch x := in.(type) {
+			case *ssa.Send:
+				return isSinkCh(x.Chan)
+			case *ssa.Select:
+				for _, st := range x.States {
+					if st.Send != nil && isSinkCh(st.Chan) {
+						return true
+					}
+				}
+			}
+			return false
+		}
+		lf := computeLockFlow(f, heldSet{})
+		n := 0
+		for _, in := range findInstrsIn(f, func(in ssa.Instruction) bool {
+			if _, isGo := in.(*ssa.Go); isGo {
+				return false
+			}
+			return writesLike(in, isSinkSend, 3)
+		}) {
+			n++
+			held := false
+			for h := range lf.must[in] {
+				if strings.HasSuffix(h, k.lock) {
+					held = true
+				}
+			}
+			r1.Check(held, k.fn+": events are sent to the sinks while the node's lock is held", instrPos(in), 1, "", "Close can finish (lock taken, sink removed, final sweep done) while an emit that already picked the sink still delivers to it: a closed subscription receives an event", fmtHeld(lf.must[in]))
+		}
+		r1.Check(n >= 1, k.fn+": delivery site", f.Pos(), n, "", "", "")
 	}
 	if f := r1.need("(*" + ebP + ".emitter).Emit"); f != nil {
 		res := (&pathEnum{Fn: f, Instr: func(in ssa.Instruction) int {
@@ -516,6 +560,55 @@ func checkC15(c *Ctx, r *Report) {
 				m2 := answerGuardedBy(c, g, th, []conjunct{cj.negate()}, false)
 				r3.Check(len(m1) == 0 && len(m2) == 0, wM("removeSink")+": exactly the sinks on the closing channel are deleted", instrPos(call.(ssa.Instruction)), 2, "", "another wildcard subscription is detached, or the closing one keeps receiving", strings.Join(append(m1, m2...), "; "))
 			}
+			if n == 0 {
+				// a hand-written filter: the new list is built by appends of the elements whose channel differs
+				isCh := func(v ssa.Value) bool { return isParamVar(c, v, "ch") }
+				isElemCh := func(v ssa.Value) bool {
+					fl, _ := loadOfField(strip2(v))
+					return fl != nil && fl.Name() == "ch" && !isCh(v)
+				}
+				var keeps []ssa.Instruction
+				allInstrs(f, func(in ssa.Instruction) {
+					call, ok := in.(*ssa.Call)
+					if ok && calleeKey(call) == "builtin.append" && strings.Contains(types.TypeString(call.Type(), nil), "namedSink") {
+						keeps = append(keeps, in)
+					}
+				})
+				stores := findInstrs(f, fieldWritePred(wT+".sinks"))
+				okBuilt := len(stores) == 1 && len(keeps) >= 1
+				if okBuilt {
+					okBuilt = derivesFrom(stores[0].(*ssa.Store).Val, func(v ssa.Value) bool {
+						for _, k := range keeps {
+							if v == k.(ssa.Value) {
+								return true
+							}
+						}
+						return false
+					})
+				}
+				r3.Check(okBuilt, wM("removeSink")+": the new sink list is what the filter kept", f.Pos(), 2, "", "", "")
+				differ := eqEdge(isElemCh, isCh, false)
+				r3.guard(f, "keep a sink", keeps, "sink.ch != ch", differ, nil)
+				var from []CFGEdge
+				for _, b := range f.Blocks {
+					for sidx := range b.Succs {
+						if differ(b, sidx) {
+							from = append(from, CFGEdge{b, sidx})
+						}
+					}
+				}
+				if len(from) > 0 && len(keeps) > 0 {
+					h := iterationOf(f, from[0].B)
+					q := &Cut{Fn: f, FromEdges: from, Sep: inSet(keeps), Target: func(in ssa.Instruction) bool {
+						if _, isRet := in.(*ssa.Return); isRet {
+							return true
+						}
+						return h != nil && in.Block() == h && instrIndex(in) == 0
+					}}
+					r3.mustPass(f, wM("removeSink")+": every sink on another channel is kept", q, len(from))
+					n = 1
+				}
+			}
 			r3.Check(n == 1, wM("removeSink")+": one DeleteFunc over the sinks", f.Pos(), n, "", "", "")
 		}
 	}
@@ -529,20 +622,12 @@ func checkC15(c *Ctx, r *Report) {
 			return !isDefer && isCallTo(in, "(*sync.WaitGroup).Go")
 		})
 		w, n := (&Cut{Fn: f, Target: inSet(locks), Sep: inSet(starts)}).Run(c)
+		// the goroutine started (its literal, or what that calls) receives from the channel being closed
 		okDrain := false
 		for _, a := range allAnon(f) {
-			allInstrs(a, func(in ssa.Instruction) {
-				if sel, ok := in.(*ssa.Select); ok {
-					for _, st := range sel.States {
-						if st.Send == nil && isFreeVarOrParam(st.Chan, "ch") {
-							okDrain = true
-						}
-					}
-				}
-				if u, ok := in.(*ssa.UnOp); ok && u.Op == token.ARROW && isFreeVarOrParam(u.X, "ch") {
-					okDrain = true
-				}
-			})
+			if receivesFrom(c, a, func(v ssa.Value) bool { return isFreeVarOrParam(v, "ch") || isParamVar(c, v, "ch") }, 0) {
+				okDrain = true
+			}
 		}
 		r3.Check(len(locks) == 1 && len(starts) >= 1 && w == "" && okDrain, wM("removeSink")+": a drainer of the sink's channel runs before the write lock is requested", f.Pos(), n+1, "", "a stalled wildcard emit holds the read lock forever: Close deadlocks", w)
 		rem := findInstrs(f, fieldWritePred(wT+".sinks"))
@@ -575,9 +660,30 @@ func checkC15(c *Ctx, r *Report) {
 					s, ok := in.(*ssa.Send)
 					return ok && derivesFrom(s.X, isLoadOfField(nodeT+".last"))
 				})
-				r4.Check(okReg && len(sends) == 1, busM("Subscribe")+": the sink is registered in cb and the retained event replayed in async of the same withNode call", instrPos(typed.(ssa.Instruction)), 2, "", "an emit can slip between registration and replay: the subscriber sees a newer event before the retained one, or misses one", "")
-				r4.guard(repF, "out.ch <- n.last", sends, "n.keepLast", edgeBool(isLoadOfField(nodeT+".keepLast"), true), nil)
-				r4.guard(repF, "out.ch <- n.last", sends, "n.last != nil", edgeNil(func(v ssa.Value) bool { return derivesFrom(v, isLoadOfField(nodeT+".last")) }, false), nil)
+				// the replay blocks rather than drops: n.last is never offered through a select that has another way out
+				var droppy []ssa.Instruction
+				allInstrs(repF, func(in ssa.Instruction) {
+					sel, ok := in.(*ssa.Select)
+					if !ok {
+						return
+					}
+					for _, st := range sel.States {
+						if st.Send != nil && derivesFrom(st.Send, isLoadOfField(nodeT+".last")) && (!sel.Blocking || len(sel.States) > 1) {
+							droppy = append(droppy, in)
+						}
+					}
+				})
+				for _, d := range droppy {
+					r4.Fail(busM("Subscribe")+": the retained event is replayed with a blocking send", instrPos(d), "the replay is offered in a select with another way out (default / other case): a subscriber with a full or unbuffered queue never receives the retained event", "")
+				}
+				if len(droppy) == 0 {
+					r4.OK(busM("Subscribe")+": the retained event is replayed with a blocking send", repF.Pos(), 1, "")
+				}
+				r4.Check(okReg && len(sends)+len(droppy) == 1, busM("Subscribe")+": the sink is registered in cb and the retained event replayed in async of the same withNode call", instrPos(typed.(ssa.Instruction)), 2, "", "an emit can slip between registration and replay: the subscriber sees a newer event before the retained one, or misses one", "")
+				if len(sends) > 0 {
+					r4.guard(repF, "out.ch <- n.last", sends, "n.keepLast", edgeBool(isLoadOfField(nodeT+".keepLast"), true), nil)
+					r4.guard(repF, "out.ch <- n.last", sends, "n.last != nil", edgeNil(func(v ssa.Value) bool { return derivesFrom(v, isLoadOfField(nodeT+".last")) }, false), nil)
+				}
 			} else {
 				r4.Fail(busM("Subscribe")+": callbacks", f.Pos(), "register/replay are not function literals", "")
 			}
@@ -686,7 +792,25 @@ func checkC15(c *Ctx, r *Report) {
 		r5.guard(f, "dropper(typ)", drops, "nEmitters.Add(-1) == 0", edgeExcl(lastGone, isZero, ordGT, ordLT), nil)
 		// exactly one decrement, only for the winner of the CAS
 		decs := findInstrs(f, func(in ssa.Instruction) bool { v, ok := in.(ssa.Value); return ok && lastGone(v) })
-		r5.guard(f, "nEmitters.Add(-1)", decs, "closed.CompareAndSwap(false, true)", edgeBool(isCallResult(0, "(*sync/atomic.Bool).CompareAndSwap"), true), nil)
+		// exactly one Close wins: CompareAndSwap(false, true) succeeded, or Swap(true) returned the old value false
+		wonCAS := edgeBool(func(v ssa.Value) bool {
+			ci := isResultOfCall(v, 0, "(*sync/atomic.Bool).CompareAndSwap")
+			if ci == nil {
+				return false
+			}
+			o, ok1 := constBool(callArgs(ci)[1])
+			n, ok2 := constBool(callArgs(ci)[2])
+			return ok1 && ok2 && !o && n && isLoadOfFieldAddr(callArgs(ci)[0], ebP+".emitter.closed")
+		}, true)
+		wonSwap := edgeBool(func(v ssa.Value) bool {
+			ci := isResultOfCall(v, 0, "(*sync/atomic.Bool).Swap")
+			if ci == nil {
+				return false
+			}
+			n, ok := constBool(callArgs(ci)[1])
+			return ok && n && isLoadOfFieldAddr(callArgs(ci)[0], ebP+".emitter.closed")
+		}, false)
+		r5.guard(f, "nEmitters.Add(-1)", decs, "closed.CompareAndSwap(false, true)", anyEdge(wonCAS, wonSwap), nil)
 	}
 	if f := r5.need(busM("Emitter")); f != nil {
 		ok := false
@@ -855,4 +979,47 @@ func conjunctChEq(c *Ctx, ebP string) func(isOurs func(ssa.Value) bool) conjunct
 			return eqCond(isElemCh, func(v ssa.Value) bool { return isOurs(v) || isOurs(th(v)) })
 		}}
 	}
+}
+
+// isLoadOfFieldAddr: v is the address of the keyed field (&x.f), as passed to a method with pointer receiver.
+func isLoadOfFieldAddr(v ssa.Value, fieldKey string) bool {
+	fl, base := fieldAddrOf(strip2(v))
+	return fl != nil && fieldKeyOf(base, fl) == fieldKey
+}
+
+// receivesFrom: g receives (plain receive or select case) from a channel satisfying isCh, or passes such a channel
+// to a module function that does (two levels).
+func receivesFrom(c *Ctx, g *ssa.Function, isCh func(ssa.Value) bool, depth int) bool {
+	found := false
+	allInstrs(g, func(in ssa.Instruction) {
+		if found {
+			return
+		}
+		switch x := in.(type) {
+		case *ssa.Select:
+			for _, st := range x.States {
+				if st.Send == nil && isCh(strip2(st.Chan)) {
+					found = true
+				}
+			}
+		case *ssa.UnOp:
+			if x.Op == token.ARROW && isCh(strip2(x.X)) {
+				found = true
+			}
+		case *ssa.Call:
+			h := x.Call.StaticCallee()
+			if h == nil || h.Blocks == nil || depth >= 2 || h.Pkg == nil || !strings.HasPrefix(h.Pkg.Pkg.Path()+"/", Mod) {
+				return
+			}
+			for i, a := range x.Call.Args {
+				if i < len(h.Params) && isCh(strip2(a)) {
+					p := h.Params[i]
+					if receivesFrom(c, h, func(v ssa.Value) bool { return v == ssa.Value(p) || isParamCellLoad(c, v, p) }, depth+1) {
+						found = true
+					}
+				}
+			}
+		}
+	})
+	return found
 }
